@@ -18,6 +18,8 @@ TIERS = {
 }
 OPS = ['parse', 'parse-fails', 'bind', 'call', 'finalize', 'finalize-rejected', 'unlock', 'singleton', 'singleton-ctor-fails', 'constant',
        'constant-interactive-overlap', 'enum', 'import', 'call-then-bind-then-call']
+# further workloads for the property's online monitor (vf/online.py): the repository's tests and other checks' generated cases
+ONLINE = {'which': ['clear'], 'foreign': ['C01', 'C04', 'C05', 'C06', 'C07', 'C10', 'C11', 'C12', 'C13', 'C17'], 'n': {'quick': 30, 'thorough': 400}}
 REQUIRED_BUCKETS = ['op:' + o for o in OPS] + ['clear:keep-constants', 'clear:clear-constants', 'state:locked-at-clear', 'state:operative-nonempty-at-clear',
                                                 'state:imports-at-clear', 'state:singletons-at-clear', 'state:overlapping-constants-at-clear', 'rounds:2+', 'state:abbreviation-looked-up-before-clear', 'state:failed-singleton-constructor-before-clear']
 ORACLE_COUNTERS = ['oracle_evals', 'clears_checked']
